@@ -6,7 +6,7 @@ from vlib.registry import COMMON_NOTE
 
 # model variant the oracle is asked for: bit 1 = F14 repaired (defrag coalescing), bit 2 = F15b
 # repaired (CanResume coverage check), bit 4 = F23 repaired (defrag with no layers).  0 = pinned tree.
-VARIANT = int(os.environ.get("VERIF_C06_VARIANT", "15"))  # bits: 1 = F14 fixed (37fec0de7), 2 = F15b fixed (86ff119f0), 4 = F23 patch
+VARIANT = int(os.environ.get("VERIF_C06_VARIANT", "31"))  # bits: 1 = F14 fixed (37fec0de7), 2 = F15b fixed (86ff119f0), 4 = F23 (84b6c6966), 8 = SWA capacity (cfec8e229), 16 = F28 atomic Remove (524980fd8)
 
 REGISTRATION = {
     "engine": "lean-kvcache",
